@@ -1,7 +1,7 @@
 """C17 — Relay components (Forwarder, FanIn, FanOut, Requeuer) neither lose nor invent."""
 from . import common as C
 
-HEADER = 'From WM Require Import Base.Prelude Message.Model Handler.RouterHandle Relay.Model Corr.C17.\nOpen Scope N_scope.\n'
+HEADER = 'From WM Require Import Base.Prelude Message.Model Handler.RouterHandle Relay.Model Relay.Redelivery Corr.C17.\nOpen Scope N_scope.\n'
 PB = ['PubAccept', 'PubError', 'PubPanic']
 ST = ['Unsettled', 'Acked', 'Nacked']
 SIG_UTF8 = 'C17/forwarder-json-envelope-alters-non-utf8-strings'
@@ -17,6 +17,13 @@ TRUSTED_BASE = [
     'strings (topics, UUIDs, metadata keys/values, payloads) are interned injectively by the harness; metadata is compared as a finite map (order-insensitive, nil distinguished from empty in the model comparison, not in the property acceptor)',
     'the handler invocation of FanIn / FanOut / a Requeuer on its own router is not observable (private router) and is inserted by the check; FanOut: the Publish call on the internal GoChannel is observed through the existing gochannel.publish.snapshot stamp',
     'time: the requeuer delay is checked as a lower bound (destination entered no earlier than Delay after delivery); a message context that is done while the delay runs is generated only with Delay = 200 ms and a context cancelled before delivery, so that the select has exactly one ready case',
+]
+TRUSTED_BASE += [
+    'round "proofs": redelivery is modelled as a source that hands a fresh message.Copy() of the original to the component after every Nack until an Ack (Relay/Redelivery.v, FreshCopy) - '
+    'that GoChannel does exactly this is Layer A (GoChannel/Sub.v, SubProofs.v: no_duplicate_without_nack, redelivery_after_nack), composed in Relay/OverGoChannel.v under the hypothesis '
+    'relay_consumer (the subscription\'s consumer settles every copy with the relay\'s verdict); tied on every run by real Requeuer / Forwarder / FanIn instances fed by a real GoChannel whose destination '
+    'fails the first 0..11 attempts of each message (error or panic) and by forwarder.Publisher -> GoChannel -> Forwarder -> GoChannel(BlockPublishUntilSubscriberAck) -> a subscriber that nacks the first 0..3 copies',
+    'in the redelivery scenarios the handler invocation is not observable (inserted), and for the Forwarder the settlement of the consumed copy inside the destination call is not sampled (the copy is internal to GoChannel)',
 ]
 ASSUMPTIONS = [
     'per-message independence of handleMessage instances is structural (C02); the harness runs 1..8 messages in flight through each component, all of them inside the destination Publish call at the same time, and compares every per-message trace',
@@ -135,6 +142,44 @@ def describe_relay(c, tab):
     return d
 
 
+def split_attempts(trace):
+    """the flat trace of a redelivery history -> one list of events per attempt (an attempt ends with its settle)"""
+    out, cur = [], []
+    for e in trace:
+        cur.append(e)
+        if e[0] == 'settle':
+            out.append(cur); cur = []
+    if cur:
+        out.append(cur)
+    return out
+
+
+def redeliv_term(c, atoi, canon):
+    ids = msg_ids(c['msg']) | {0}
+    for e in c['trace']:
+        if e[0] == 'pub':
+            for m in e[2]:
+                ids |= msg_ids(m)
+    ids = sorted(ids)
+    at = C.coq_list(['(%s, %s)' % (C.coq_N(i), C.coq_Z(atoi[i])) for i in ids if i in atoi])
+    it = C.coq_list(['(%s, %s)' % (C.coq_Z(atoi[i]), C.coq_N(i)) for i in ids if i in canon])
+    comp = {'forwarder': '(KForwarder %s)' % C.coq_bool(c['ackbad']), 'requeuer': '(KRequeuer (GConst %s) (0)%%Z)' % C.coq_N(c['target']), 'fanin': '(KFanIn %s)' % C.coq_N(c['target'])}[c['comp']]
+    obs = []
+    for a in split_attempts(c['trace']):
+        st = [e for e in a if e[0] == 'settle']
+        final = 'Unsettled' if not st else ('Acked' if st[-1][1] else 'Nacked')
+        obs.append('(%s, %s)' % (final, C.coq_list(['ECall'] + [event_term(e, 0) for e in a])))   # the handler invocation is not observable here
+    beh = C.coq_list(['(false, %s)' % PB[b] for b in c['beh']])
+    return '(RD %s %s %s %s %s %s %s %s %s %s)' % (comp, C.coq_N(c['src']), msg_term(c['msg']), beh, env_term(c['dec']), at, it, C.coq_N(c['rk']),
+                                                 C.coq_list(obs), msg_term(c['after']))
+
+
+def describe_redeliv(c, tab):
+    return dict(component=c['comp'], id=c['id'], source='real GoChannel, topic %s' % tab[c['src']],
+                original=None if c['msg'] is None else show_msg(c['msg'], tab), destination_behaviour_per_attempt=[PB[b] for b in c['beh']],
+                attempts=[show_trace(a, tab) for a in split_attempts(c['trace'])], in_flight=c['flight'])
+
+
 def describe_fanout(c, tab):
     return dict(component='fanout', id=c['id'], topic=tab[c['src']], consumed=show_msg(c['msg'], tab), subscribers_of_topic=c['nsubs'],
                 internal_pubsub_closed=c['closed'], received=[dict(topic=tab[g['t']], **show_msg(g['m'], tab)) for g in c['got']],
@@ -244,6 +289,45 @@ def run_once(ctx, res, seed, size, tag):
                                        case=describe_fanout(fo[i], tab)))
         for i in r['R_mis']:
             res.mismatches.append(dict(kind='Corr.C17.fanout_mismatch (run CFanOut + fanout_deliver vs the real FanOut)', explained_by_violation=(i in r['R_vio']), case=describe_fanout(fo[i], tab)))
+    # ---- redelivery from a real GoChannel source (round "proofs")
+    rd = []
+    for c in data.get('redeliv') or []:
+        res.evaluations += 1
+        res.count('redelivery: %s attempts=%s in_flight=%d' % (c['comp'], min(len(c['beh']), 6), c['flight']))
+        bad = [e for e in c['trace'] if event_term(e, 0) is None]
+        if bad or c['msg'] is None:
+            res.violations.append(dict(signature='C17/redelivery/' + (bad[0][0] if bad else 'not-published'),
+                                       what='redelivery: %s' % ('the message was never acked although the destination accepts the last scripted attempt' if bad and bad[0][0] == 'never-acked' else 'message not taken'),
+                                       case=describe_redeliv(c, tab)))
+            continue
+        rd.append(c)
+        res.nontrivial.add(('redeliv', c['comp'], tuple(c['beh']), c['msg']['nil'], min(len(c['msg']['m']), 7)))
+    for part, chunk in enumerate(C.chunks(rd, 150)):
+        r = C.coq_eval(pid, 'cases_%s_redeliv_%d' % (tag, part), HEADER + 'Definition cases : list redeliv_case := %s.\n' % C.coq_list([redeliv_term(c, atoi, canon) for c in chunk]),
+                       [('R_mis', 'redeliv_mismatches cases'), ('R_vio', 'redeliv_violations cases')])
+        for i in r['R_vio']:
+            c = chunk[i]
+            res.violations.append(dict(signature='C17/redelivery/' + c['comp'],
+                                       what='%s fed by a real GoChannel: redelivery history rejected (every attempt relays an intact copy of the ORIGINAL - requeuer: counter +1, never accumulating -, no attempt after an Ack, accepted at most once)' % c['comp'],
+                                       case=describe_redeliv(c, tab)))
+        for i in r['R_mis']:
+            c = chunk[i]
+            res.mismatches.append(dict(kind='Corr.C17.redeliv_mismatch (Relay/Redelivery.v redeliver FreshCopy vs the real %s behind a real GoChannel)' % c['comp'],
+                                       explained_by_violation=(i in r['R_vio']), case=describe_redeliv(c, tab)))
+    ch = data.get('chain') or []
+    for c in ch:
+        res.evaluations += 1
+        res.count('chain Publisher->GoChannel->Forwarder->GoChannel->subscriber: nacks=%d' % c['nacks'])
+        res.nontrivial.add(('chain', c['nacks'], c['msg']['nil'], min(len(c['msg']['m']), 7)))
+    if ch:
+        r = C.coq_eval(pid, 'cases_%s_chain' % tag, HEADER + 'Definition cases : list chain_case := %s.\n' % C.coq_list(
+            ['(CH %s %s %d %s %s)' % (C.coq_N(c['topic']), msg_term(c['msg']), c['nacks'], C.coq_list(['(%s, %s)' % (C.coq_N(g['t']), msg_term(g['m'])) for g in c['got']]), ST[c['final']]) for c in ch]),
+                       [('R_vio', 'chain_violations cases')])
+        for i in r['R_vio']:
+            c = ch[i]
+            res.violations.append(dict(signature='C17/forwarder-chain', what='forwarder.Publisher -> GoChannel -> Forwarder -> GoChannel -> subscriber: the subscriber did not get exactly nacks+1 intact copies on the topic published to',
+                                       case=dict(id=c['id'], topic=tab[c['topic']], published=show_msg(c['msg'], tab), nacks=c['nacks'],
+                                                 received=[dict(topic=tab[g['t']], **show_msg(g['m'], tab)) for g in c['got']], order=c['order'])))
     # ---- constructors
     fic = data['fanin_cfg']; rqc = data['requeuer_cfg']
     t1 = C.coq_list(['(FIC %s %s %s %s %s)' % (C.coq_bool(c['sub']), C.coq_bool(c['pub']), nlist(c['sources'] or []), C.coq_N(c['target']), C.coq_N(c['res'])) for c in fic])
@@ -281,6 +365,7 @@ def run(ctx):
                 'hand-written envelopes valid in unusual ways (permuted / unknown / duplicate / differently-cased fields, nulls, only a topic, duplicate metadata keys) and 17 kinds of malformed or invalid ones '
                 '(truncated at a random byte, wrong field types, not base64, missing / empty / null topic, non-JSON, trailing garbage); messages: nil / empty / up to 50 metadata keys, empty key, empty value, unicode, '
                 'keys that collide with or are prefixes/extensions of the requeuer key, 30 retries-counter spellings (missing, 0, -1, +7, 007, blanks, hex, MaxInt64, MinInt64, out of range, non-ASCII digits); '
+                'redelivery: Requeuer / Forwarder / FanIn (3 source topics) behind a REAL GoChannel source, destination failing the first 0..11 attempts per message, 1..8 messages in flight, and a full chain Publisher->GoChannel->Forwarder->GoChannel->nacking subscriber; '
                 'requeuer topic from a constant / a metadata key (also the counter key itself) / always failing, Delay 0 or 200 ms with live or cancelled message context; NewFanIn / NewRequeuer configurations. '
                 'non-trivial = distinct (component, input class, destination behaviour, number of publishes, settlement, configuration, counter class, metadata size).')
     return res
